@@ -287,7 +287,7 @@ theorem C02_folder_ok_next (o : FolderObs) (st : SimState) (w : WfState st) (ok 
     (o.next st).Ok := by
   unfold FolderObs.next
   cases hf : o.find st with
-  | none => exact ok
+  | none => exact (by decide : (0 : Nat) ∈ FileSystemItemHealthStatus.values)
   | some f => exact FolderObs.health_lt ok (FolderObs.find_wf w hf)
 
 /-! ### NIC / port -/
